@@ -161,6 +161,30 @@ theorem C06_headers_sound (a : ANode) (script : List DAAns)
         (dh, false, h) ∈ (headersIter a script).1.daBlobs ∧ (b.sh.hdr.hash, dh) ∈ (headersIter a script).1.hMarks :=
   headersIter_sound a script hok
 
+/-- **Soundness of the data watermark at the level of one data iteration** (every DA answer list): every height the
+data watermark moved past is a stored block that **is empty** (no data blob exists for it: `createSignedDataToSubmit`
+skips it, `IsDAIncluded` counts the empty data hash as included) **or whose signed data the DA double stored during this
+iteration**, its data commitment being marked with that DA height.  In particular the watermark never moves past a
+non-empty block the DA layer did not accept — also not over empty blocks that follow such a block. -/
+theorem C06_data_sound (a : ANode) (script : List DAAns)
+    (hok : ∀ h, a.n.dataWm < h → h ≤ a.n.store.height → ∃ b, a.n.store.getBlock h = some b ∧ dataHeight b = h)
+    (hle : a.n.dataWm ≤ a.n.store.height) :
+    ∀ h, a.n.dataWm < h → h ≤ (dataIter a script).1.n.dataWm →
+      ∃ b, a.n.store.getBlock h = some b ∧ dataHeight b = h ∧
+        (b.data.txs = [] ∨ ∃ dh, a.daH ≤ dh ∧ dh < (dataIter a script).1.daH ∧
+          (dh, true, h) ∈ (dataIter a script).1.daBlobs ∧ (b.data.daCommitment, dh) ∈ (dataIter a script).1.dMarks) :=
+  dataIter_sound a script hok hle
+
+/-- **the watermark moves over empty blocks only when every pending block is empty**: a data iteration that issues no
+`Submit` call changes the node only if all blocks of `(dataWm, height]` are empty, and then the new watermark is the
+chain height (/repo 5533199; before, such an iteration changed nothing and the empty blocks stayed pending for ever) -/
+theorem C06_data_advance_over_empty_blocks (a : ANode) (script : List DAAns)
+    (hok : ∀ h, a.n.dataWm < h → h ≤ a.n.store.height → ∃ b, a.n.store.getBlock h = some b ∧ dataHeight b = h)
+    (hle : a.n.dataWm ≤ a.n.store.height)
+    (hempty : ∀ h, a.n.dataWm < h → h ≤ a.n.store.height → ∃ b, a.n.store.getBlock h = some b ∧ b.data.txs = []) :
+    (dataIter a script).1.n.dataWm = (dataIter a script).1.n.store.height ∧ (dataIter a script).2.2.1 = [] :=
+  dataIter_idle_reaches hempty hok hle script
+
 /-! ## 3. watermark ≤ chain height; persistence; restart -/
 
 /-- the header watermark never passes the chain height, for every DA answer list -/
@@ -170,11 +194,10 @@ theorem C06_watermark_le_height (a : ANode) (script : List DAAns)
     (headersIter a script).1.n.hdrWm ≤ (headersIter a script).1.n.store.height :=
   headersIter_wm_le a script hok hle
 
-/-- the same for the data watermark (the non-empty blocks of the pending range carry their height in the data
-metadata, as the producer writes it) -/
+/-- the same for the data watermark (the blocks of the pending range carry their height in the data metadata, as the
+producer writes it — for every reachable node this is part of `C06`) -/
 theorem C06_data_watermark_le_height (a : ANode) (script : List DAAns)
-    (hok : ∀ h, a.n.dataWm < h → h ≤ a.n.store.height → ∃ b, a.n.store.getBlock h = some b ∧
-      (b.data.txs ≠ [] → dataHeight b = h))
+    (hok : ∀ h, a.n.dataWm < h → h ≤ a.n.store.height → ∃ b, a.n.store.getBlock h = some b ∧ dataHeight b = h)
     (hle : a.n.dataWm ≤ a.n.store.height) :
     (dataIter a script).1.n.dataWm ≤ (dataIter a script).1.n.store.height :=
   dataIter_wm_le a script hok hle
@@ -186,8 +209,8 @@ theorem C06_persisted (d : Bool) (fuel : Nat) (a : ANode) (items : List Item) (s
     Persisted false (submitLoop d fuel a items script [] []).1 ∧ Persisted true (submitLoop d fuel a items script [] []).1 := by
   obtain ⟨rem, pre, hi, _⟩ := submitLoop_loopInv d fuel a items script []
   cases d with
-  | false => exact ⟨hi.persisted h1, hi.persisted_other h2⟩
-  | true => exact ⟨hi.persisted_other h1, hi.persisted h2⟩
+  | false => exact ⟨hi.toIter.persisted h1, hi.toIter.persisted_other h2⟩
+  | true => exact ⟨hi.toIter.persisted_other h1, hi.toIter.persisted h2⟩
 
 /-- **Restart reloads the persisted watermarks, raised to `initialHeight − 1`** (`NewManager`), hence (with the theorem
 above) the watermarks in memory never decrease across a restart, and for a node whose watermarks are at least
@@ -216,8 +239,12 @@ answer lists), inclusion passes, and restarts on the node's durable image (clean
    own height;
 3. every committed height `initialHeight ≤ h ≤ hdrWm` is a stored block whose header blob the DA double holds
    (the watermark never moved past a height the DA layer did not accept);
-4. **a header tick against a DA layer that accepts after fewer than 30 non-cancellation failures ends with
-   `hdrWm = chain height`**, with outcome `done` whenever something was pending. -/
+4. every committed height `initialHeight ≤ h ≤ dataWm` is a stored block that is **empty or whose signed data the DA
+   double holds**, and every committed block carries its own height in its data metadata;
+5. **a header tick against a DA layer that accepts after fewer than 30 non-cancellation failures ends with
+   `hdrWm = chain height`**, with outcome `done` whenever something was pending; **a data tick against such a DA layer
+   leaves only empty blocks above the data watermark, and the next data tick (any answers: the DA layer is not asked)
+   ends with `dataWm = chain height`** — for every mix of empty and non-empty blocks. -/
 theorem C06 (c : Cfg) (hpos : 1 ≤ c.initialHeight) (acts : List ActR) :
     let a := runR c (freshA c) acts
     (c.initialHeight - 1 ≤ a.n.hdrWm ∧ a.n.hdrWm ≤ a.n.store.height) ∧
@@ -227,17 +254,27 @@ theorem C06 (c : Cfg) (hpos : 1 ≤ c.initialHeight) (acts : List ActR) :
     (∃ bs, pendingBlocks a.n.store a.n.hdrWm = some bs) ∧ (∃ bs, pendingBlocks a.n.store a.n.dataWm = some bs) ∧
     (∀ h, c.initialHeight ≤ h → h ≤ a.n.hdrWm → ∃ b dh, a.n.store.getBlock h = some b ∧ b.sh.hdr.height = h ∧
       (dh, false, h) ∈ a.daBlobs) ∧
+    (∀ h, c.initialHeight ≤ h → h ≤ a.n.dataWm → ∃ b, a.n.store.getBlock h = some b ∧
+      (b.data.txs = [] ∨ ∃ dh, (dh, true, h) ∈ a.daBlobs)) ∧
+    (∀ h, c.initialHeight ≤ h → h ≤ a.n.store.height → ∃ b, a.n.store.getBlock h = some b ∧ dataHeight b = h) ∧
     ∀ (fails tail : List DAAns), tail.headD (.ok none) = .ok none → DAAns.canceled ∉ fails →
       fails.length < maxSubmitAttempts →
-      (headersIter a (fails ++ tail)).1.n.hdrWm = (headersIter a (fails ++ tail)).1.n.store.height ∧
-      (a.n.hdrWm < a.n.store.height → (headersIter a (fails ++ tail)).2.2.2 = .done) := by
+      ((headersIter a (fails ++ tail)).1.n.hdrWm = (headersIter a (fails ++ tail)).1.n.store.height ∧
+       (a.n.hdrWm < a.n.store.height → (headersIter a (fails ++ tail)).2.2.2 = .done)) ∧
+      (∀ h, (dataIter a (fails ++ tail)).1.n.dataWm < h → h ≤ (dataIter a (fails ++ tail)).1.n.store.height →
+        ∃ b, (dataIter a (fails ++ tail)).1.n.store.getBlock h = some b ∧ b.data.txs = []) ∧
+      ∀ s2, (dataIter (dataIter a (fails ++ tail)).1 s2).1.n.dataWm =
+        (dataIter (dataIter a (fails ++ tail)).1 s2).1.n.store.height := by
   intro a
   have r : R c a := (R_fresh c hpos).run acts
   have hok := hdrOK_of_inv r.pinv r.low
   have l1 := r.low
   have l2 := r.dlow
-  refine ⟨⟨by omega, r.le⟩, ⟨by omega, r.dle⟩, fun h h1 h2 => ⟨by omega, hok h h1 h2⟩, ?_, ?_, r.acc,
-    fun fails tail htail hnc hf => headersIter_reaches a fails tail htail hnc hf hok r.le⟩
+  have hdok := r.toD.dataOK r.dlow
+  refine ⟨⟨by omega, r.le⟩, ⟨by omega, r.dle⟩, fun h h1 h2 => ⟨by omega, hok h h1 h2⟩, ?_, ?_, r.acc, r.dacc, r.mh,
+    fun fails tail htail hnc hf => ⟨headersIter_reaches a fails tail htail hnc hf hok r.le,
+      dataIter_accepting a fails tail htail hnc hf hdok r.dle,
+      fun s2 => data_two_ticks a fails tail s2 htail hnc hf hdok r.dle⟩⟩
   · exact pendingBlocks_exists (fun k k1 k2 => by obtain ⟨b, hb, _⟩ := hok k k1 k2; exact ⟨b, hb⟩)
   · exact pendingBlocks_exists (fun k k1 k2 => by
       obtain ⟨b, hb, _⟩ := r.pinv.chain k (by omega) k2; exact ⟨b, hb⟩)
@@ -272,7 +309,7 @@ theorem runA_produce (c : Cfg) (a : ANode) (rs : List (SeqResp × ExecResp)) :
 /-- **it holds now** (it was refuted by the witness below until /repo 6924f89) -/
 theorem C06_full_holds : C06_full := by
   intro c rs hpos
-  have h := (C06 c hpos ((rs.map fun r => Act.produce r.1 r.2).map .act)).2.2.2.2.2.2 [] [] rfl (by simp) (by decide)
+  have h := ((C06 c hpos ((rs.map fun r => Act.produce r.1 r.2).map .act)).2.2.2.2.2.2.2.2 [] [] rfl (by simp) (by decide)).1
   rw [runR_act, runA_produce] at h
   have hi := (headersIter_inv { freshA c with n := run c (freshNode c) rs } []).choose_spec.choose_spec.choose_spec.1.frame.height
   exact h.1.trans hi
